@@ -33,7 +33,7 @@ NAMES = (
 SCALARS = ("str", "int", "float", "bool")
 DOTTED = ("np.ndarray", "tf.data.Dataset", "Optimizer", "tf.keras.losses.Loss", "Callable")
 STR_WORDS = ("mnist", "np", "tf", "epoch", "batch", "adam", "sgd", "logs", "foo_bar", "relu", "r", "w")
-CODE_SIMPLE = ("(1, 2)", "[]", "[1, 2]", "stdout", "foo(5)", "1 + 2", "foo(1.5)")
+CODE_SIMPLE = ("(1, 2)", "[]", "[1, 2]", "stdout", "foo(5)", "1 + 2", "foo(1.5)", "n", "x", "{}", "(28, 28)")
 CODE_DOT = ("np.empty(0)", "tf.float32", "foo(1.5).bar", "np.zeros(3).T", "os.path.join('a', 'b')")
 
 
